@@ -127,13 +127,17 @@ ExecRes(c, fault) ==
          IF fault # "none" THEN [r |-> "error"]
          ELSE IF c.part = 0 THEN [r |-> "code", code |-> 208]
          ELSE IF parts[c.part].st = "complete" THEN [r |-> "complete"]
+         ELSE IF parts[c.part].st = "pending" THEN [r |-> "code", code |-> 200]   \* the requested timeout has passed
          ELSE [r |-> "code", code |-> parts[c.part].code]
     [] c.kind = "pay" -> [r |-> "running"]
     [] c.kind = "getinfo" -> IF fault = "error" THEN [r |-> "error"] ELSE [r |-> "ok", height |-> height]
     [] OTHER -> [r |-> "unknown"]
 
-\* E6: waitsendpay answers only once the part is no longer pending
-ExecEnabled(c) == c.kind = "wait" /\ c.part # 0 => parts[c.part].st # "pending"
+\* E6: waitsendpay answers only once the part is no longer pending - or, if the caller asked for a timeout
+\* (c.timeout # -1), once that many seconds have passed since the call was issued (c.at): code 200
+ExecEnabled(c) == c.kind = "wait" /\ c.part # 0 =>
+                    \/ parts[c.part].st # "pending"
+                    \/ (c.timeout # -1 /\ now >= c.at + c.timeout)
 
 ---------------------------------------------------------------------------
 (* Observer bookkeeping (per hash), used by Props:                          *)
